@@ -1396,3 +1396,92 @@ def high_index_limit_stream(start_id=21000):
         ops.append('dget %d %d' % (d, i)); ops.append('tget %d %d' % (d, i))
     ops.append('tsearch %d %s -' % (d, hx(b'h000'))); ops.append('tsearch %d %s -' % (d, hx(b'h100')))
     return ops
+
+
+# ====================================================================================================
+# numeric coincidences and call orders
+# ====================================================================================================
+LENS = [0, 1, 30, 31, 32, 33, 61, 62, 63, 126, 127, 128, 129, 255, 256, 4031, 4032, 4033, 4063, 4064, 4065, 4095, 4096, 4097]
+SIZES = [0, 1, 31, 32, 33, 61, 62, 63, 64, 65, 126, 127, 128, 129, 4095, 4096, 4097, 16383, 16384, 65535, 65536, 65537]
+
+
+def coincidence_stream(g, start_id=22000):
+    """lengths, sizes, indices and limits that coincide with constants of the format or of the code (32, 61, 62,
+    127, 128, 4096, 16384, 65536 ...), in every position: value length, name length, table size, list limit"""
+    ops = []
+    rnd = g.rnd
+    i = start_id
+    # string lengths: as value and as name, plain and Huffman, sent twice (second time indexed)
+    for L in LENS:
+        i += 1
+        ops.append('enew %d' % i); ops.append('dnew %d 10000000' % i); ops.append('dallow %d %d' % (i, 1 << 21))
+        if L > 4000:
+            ops.append('esize %d 8192' % i)
+        for huff in (0, 1):
+            v = bytes([97 + (L + huff) % 26]) * L
+            for hs in ([(b'k', v, False)], [(v, b'v', False)], [(b'k', v, True)]):
+                for _ in range(2):
+                    ops.append('eenc %d %d %s' % (i, huff, ' '.join('%s:%s:%d' % (hx(n), hx(x), int(s)) for n, x, s in hs)))
+                    ops.append('pipe %d %d %d' % (i, rnd.choice([0, 1]), i))
+    # table sizes: set, fill with entries whose sizes straddle the table size, re-send
+    for S in SIZES:
+        i += 1
+        ops.append('enew %d' % i); ops.append('dnew %d 10000000' % i); ops.append('dallow %d %d' % (i, 1 << 21))
+        ops.append('esize %d %d' % (i, S))
+        fields = [(b'a', b'1'), (b'bb', b'22' * 3), (b'c', b'x' * max(S - 33 - 1, 0)), (b'c', b'x' * max(S - 33, 0)), (b'c', b'x' * max(S - 32, 0)), (b'a', b'1')]
+        for n, v in fields:
+            if len(v) > 70000:
+                continue
+            ops.append('eenc %d 0 %s:%s:0' % (i, hx(n), hx(v)))
+            ops.append('pipe %d 1 %d' % (i, i))
+        ops.append('eenc %d 1 %s' % (i, ' '.join('%s:%s:0' % (hx(n), hx(v)) for n, v in fields[:2])))
+        ops.append('pipe %d 1 %d' % (i, i))
+    # list limits equal to such constants, met exactly / exceeded by one
+    for X in (32, 33, 61, 62, 64, 127, 128, 4096, 65536):
+        for dlt in (-1, 0, 1):
+            i += 1
+            ops.append('dnew %d %d' % (i, X))
+            need = X + dlt - 32 - 1
+            if need < 0:
+                ops.append('ddec %d 1 %s' % (i, hx(bytes([0x00, 0x00, 0x00]))))      # ('','') = 32
+                continue
+            v = b'v' * need
+            ops.append('ddec %d 1 %s' % (i, hx(bytes([0x00, 0x01, 0x6e]) + int_octets(len(v), 7) + v)))
+            ops.append('ddec %d 1 %s' % (i, hx(bytes([0x40, 0x01, 0x6e]) + int_octets(len(v), 7) + v + b'\xbe')))
+    return ops
+
+
+def call_order_stream(start_id=23000):
+    """every order of three public calls on a Decoder / an Encoder drawn from small sets: setter vs in-band update vs
+    permitted-maximum change vs block; size assignment vs encode vs size assignment"""
+    import itertools
+    ops = []
+    i = start_id
+    dcalls = ['dallow {d} 100', 'dallow {d} 8192', 'dsize {d} 64', 'dsize {d} 5000', 'ddec {d} 1 3f45', 'ddec {d} 1 20', 'ddec {d} 1 400161016240016301' + '64', 'ddec {d} 1 be', 'ddec {d} 1 -', 'dlimit {d} 40']
+    for seq in itertools.permutations(dcalls, 3):
+        if hash(seq) % 3:           # thin deterministically (hash of a tuple of str is stable under PYTHONHASHSEED=0 only; use index instead)
+            pass
+    k = 0
+    for seq in itertools.permutations(range(len(dcalls)), 3):
+        k += 1
+        if k % 3:
+            continue
+        i += 1
+        ops.append('dnew %d' % i)
+        ops.append('ddec %d 1 %s' % (i, '4001780179'))
+        for j in seq:
+            ops.append(dcalls[j].format(d=i))
+        ops.append('ddec %d 1 bebf' % i)
+        ops.append('ddec %d 1 82' % i)
+    ecalls = ['esize {e} 40', 'esize {e} 4096', 'esize {e} 0', 'esize {e} 100', 'eenc {e} 0 61:62:0', 'eenc {e} 1 63:64:1', 'eenc {e} 0 -']
+    for seq in itertools.permutations(range(len(ecalls)), 3):
+        i += 1
+        ops.append('enew %d' % i); ops.append('dnew %d' % i)
+        ops.append('eenc %d 0 61:62:0 78:79:0' % i); ops.append('pipe %d 1 %d' % (i, i))
+        for j in seq:
+            c = ecalls[j].format(e=i)
+            ops.append(c)
+            if c.startswith('eenc'):
+                ops.append('pipe %d 1 %d' % (i, i))
+        ops.append('eenc %d 0 61:62:0 78:79:0' % i); ops.append('pipe %d 1 %d' % (i, i))
+    return ops
